@@ -108,6 +108,13 @@ No hypothesis. -/
 theorem total (win : Bool) (s : Str) (d : List (Str × PyVal)) : OkOrDescriptor (createTransport env win s d) :=
   total_of_aligned env gen_envOk gen_aligned win s d
 
+/-- **Obligation on the exception class of the current source** (recomputed on every run): the model treats
+`raise QMI_TransportDescriptorException(text, …)` as atomic (`.err .descriptor`), whatever characters the user's text puts
+into the message.  That is CPython's behaviour as long as the class and its qmi base classes inherit construction and
+string conversion from `Exception` unchanged; a formatting `__init__` fails here (and the harness constructs the exception
+from texts full of `{ } %` … directly). -/
+theorem gen_exception_plain : QmiModel.Gen.TransportTables.descriptorExceptionPlain = true := by decide
+
 /-- non-vacuity: both outcomes occur, and the inputs that used to escape on the pinned tree (04de7e7) now give the
 descriptor error — or, for a serial port without baud rate, the documented default -/
 example :
